@@ -49,25 +49,25 @@ type AssertSpec struct {
 }
 
 type Contract struct {
-	Func     string
-	Mode     string
-	Returns  []string
-	Logical  []LogicalVar
-	Requires []*Clause
-	Ensures  []*Clause
-	Loops    map[int]*LoopSpec
-	Calls    []*CallHint
-	Waivers  []*Waiver
-	Panics   *Clause // panics exactly when (nil = never)
+	Func      string
+	Mode      string
+	Returns   []string
+	Logical   []LogicalVar
+	Requires  []*Clause
+	Ensures   []*Clause
+	Loops     map[int]*LoopSpec
+	Calls     []*CallHint
+	Waivers   []*Waiver
+	Panics    *Clause // panics exactly when (nil = never)
 	HasPanics bool
-	Props    []string
-	Trusted  string // non-empty: contract is assumed, with this reason
-	Asserts  []*AssertSpec
-	Split    *SplitSpec
-	Line     int
-	NoSafety bool
-	Uses     []string // axiom families to instantiate
-	Assigns  []string
+	Props     []string
+	Trusted   string // non-empty: contract is assumed, with this reason
+	Asserts   []*AssertSpec
+	Split     *SplitSpec
+	Line      int
+	NoSafety  bool
+	Uses      []string // axiom families to instantiate
+	Assigns   []string
 }
 
 type SplitSpec struct {
